@@ -131,6 +131,12 @@ class Eval:
             if op == '-':
                 v = iv(self.ev(n['inner'][0])); return Iv(-v.hi, -v.lo, v.vars) if not v.const() else -v.lo
             if op == '!': return int(not self.truth(self.ev(n['inner'][0])))
+            if op in ('++', '--'):
+                lhs = n['inner'][0]
+                old_v = self.ev(lhs)
+                new_v = self.binop('+' if op == '++' else '-', old_v, 1)
+                self.assign(lhs, new_v)
+                return old_v if n.get('isPostfix') else new_v
             raise AnalysisBroken(f'decoder: unary {op} at {where(n)}')
         if k == 'ConditionalOperator':
             return self.ev(n['inner'][1 if self.truth(self.ev(n['inner'][0])) else 2])
@@ -170,6 +176,9 @@ class Eval:
                 if op == '&' and y == 0xFF:
                     j = x[1]; lo, hi = self.box[j]; return Iv(lo, hi, [j], pure=j)
                 raise AnalysisBroken('decoder: input byte used without the & 0xFF mask')
+        for x, y in ((a, b), (b, a)):
+            # the state / input pointers are never NULL (every caller passes the address of an object): a NULL guard is dead
+            if x in (('u',), ('input',)) and y == 0 and op in ('==', '!='): return int(op == '!=')
         if isinstance(a, tuple) or isinstance(b, tuple): raise AnalysisBroken(f'decoder: operator {op} on a non-integer')
         A, B = iv(a), iv(b)
         vs = A.vars | B.vars
